@@ -22,6 +22,7 @@ pub mod c17;
 pub mod c18;
 pub mod c19;
 pub mod c20;
+pub mod refgrow;
 
 pub struct PropDef {
 	pub id: &'static str,
